@@ -197,7 +197,12 @@ pub fn load_value(j: &Value, crosscheck: bool) -> Result<Loaded, LoadError> {
                     return mal("duplicate dynamic parameter");
                 }
             }
-            Some(serde_json::from_value(Value::Object(o)).map_err(|e| LoadError::Malformed(format!("dynamic_params: {}", e)))?)
+            for k in ["cpu_component_step", "num_columns_first", "num_columns_second"] {
+                if !o.contains_key(k) {
+                    return mal(format!("dynamic structural parameter missing: {}", k));
+                }
+            }
+            Some(serde_json::from_value(Value::Object(o)).map_err(|e| LoadError::Malformed(format!("dynamic parameter names: {}", e)))?)
         }
         Some(_) => return mal("dynamic_params is not an object"),
     };
@@ -309,7 +314,8 @@ pub fn load_value(j: &Value, crosscheck: bool) -> Result<Loaded, LoadError> {
             Some(x) => x,
             None => {
                 if l.starts_with("P->V") || l.starts_with("V->P") {
-                    return mal(format!("unparsable annotation: {:.80}", l));
+                    // a garbled line is neither a recorded value nor clearly an error of the file: not judged
+                    return Err(LoadError::Unspecified(format!("unparsable annotation: {:.80}", l)));
                 }
                 continue;
             }
@@ -452,7 +458,7 @@ pub fn load_value(j: &Value, crosscheck: bool) -> Result<Loaded, LoadError> {
                     _ => return mal(format!("unexpected kind {} in FRI decommitment", k)),
                 }
             }
-            (p, k) => return mal(format!("unknown P->V annotation {} / {}", p, k)),
+            (p, k) => return Err(LoadError::Unspecified(format!("unknown P->V annotation {} / {}", p, k))),
         }
     }
     if let Some(s) = &stream {
